@@ -215,11 +215,17 @@ static bool handle_token(unsigned char uch, long file_pos,
 
 static int count(unsigned char needle, const char* haystack, size_t len)
 {
+  /* Count occurrences of the token |needle|.  Bytes inside a quoted
+     string are not tokens (see decode_line), so they are not counted. */
   int n = 0;
+  bool in_string = false;
   const unsigned char *p = (const unsigned char*)haystack;
   while (len--)
     {
-      if (*p++ == needle)
+      const unsigned char ch = *p++;
+      if (ch == '"')
+	in_string = !in_string;
+      else if (!in_string && ch == needle)
 	++n;
     }
   return n;
